@@ -16,6 +16,61 @@ def interesting(d):
                                              "core::pin::Pin::", "core::future::get_context", "core::future::into_future"))
 
 
+def multi_path_errors(ctx, rule):
+    """notify_multi_path_errors: at least one error, one per path, of the add/remove kind of the failed operation (shared with C13)"""
+    facts = ctx.facts
+    nm = ctx.anchor_fn(rule, "watchexec::sources::fs::notify_multi_path_errors")
+    n_emp = n_non = 0
+    for q in pathx.Enum().paths(thir.root(nm)):
+        emp = None
+        for e in q.ev:
+            if e[0] == "branch":
+                if implies(e[1], e[2], "Vec::is_empty(paths)", True):
+                    emp = True
+                elif implies(e[1], e[2], "Vec::is_empty(paths)", False):
+                    emp = False
+        top_push = [pathx.desc(e[2]["a"][0]) for e in q.ev if e[0] == "call" and strip_generics(e[1]).endswith("Vec::push")]
+        loops = [e for e in q.ev if e[0] == "loop" and e[2] == "for paths"]
+        if emp is True:
+            n_emp += 1
+            ctx.require(top_push == ["paths"], rule, "multi:fallback-path", "when notify names no path the watched path itself is used", nm.loc(nm.line),
+                        detail=str(top_push), fail="a watch()/unwatch() error that names no path produces no RuntimeError at all: the failure is silently dropped")
+        elif emp is False:
+            n_non += 1
+            ctx.require(top_push == [], rule, "multi:named-paths", "when notify names paths only those are reported", nm.loc(nm.line), detail=str(top_push))
+        else:
+            ctx.violation(rule, "multi:paths-tested", "notify_multi_path_errors does not test whether notify named any path", nm.loc(nm.line))
+        okl = len(loops) == 1
+        if okl:
+            for it in loops[0][1]:
+                pushes = [pathx.desc(e[2]["a"][0]) for e in it if e[0] == "call" and strip_generics(e[1]).endswith("Vec::push")]
+                okl = okl and pushes == ["errs"] and ("loop-break",) not in it
+        ctx.require(okl and q.val == "errs", rule, "multi:one-error-per-path", "one RuntimeError is pushed per path and the list is returned", nm.loc(nm.line),
+                    fail="notify_multi_path_errors no longer produces exactly one error per failing path")
+    ctx.require(n_emp >= 1 and n_non >= 1, rule, "multi:both-classes", "both cases (notify names paths / names none) are handled", nm.loc(nm.line))
+    # kind of the error follows the `rm` flag, and the two call sites pass the matching literal
+    ifs = [n for n in thir.find(thir.root(nm), "if") if pathx.if_parts(n)[0] == "rm"]
+    ok = False
+    if len(ifs) == 1:
+        _, t_, e_ = pathx.if_parts(ifs[0])
+        tv, evv = thir.expr_value(t_), thir.expr_value(e_)
+        ok = tv[0] == "v" and tv[2] == "PathRemove" and evv[0] == "v" and evv[2] == "PathAdd"
+    ctx.require(ok, rule, "multi:kind", "rm selects FsWatcherError::PathRemove, otherwise PathAdd", nm.loc(nm.line))
+    w2 = ctx.anchor_one(rule, "fs worker coroutine", [c for c in facts.children(ctx.anchor_fn(rule, "watchexec::sources::fs::worker")) if c.kind == "coroutine"])
+    flags = {}
+    for m in thir.find(thir.root(w2), "match"):
+        if m.get("src") == "ForLoopDesugar":
+            inner = thir.peel(m["e"])
+            if inner.get("k") == "call" and inner.get("a") and pathx.desc(inner["a"][0]) in ("to_drop", "to_watch"):
+                which = pathx.desc(inner["a"][0])
+                for c, nd in thir.calls_in(m):
+                    if strip_generics(c).endswith("fs::notify_multi_path_errors"):
+                        flags.setdefault(which, []).append(pathx.desc(nd["a"][3]))
+    ctx.require(flags == {"to_drop": ["True"], "to_watch": ["False"]}, rule, "multi:call-sites", "a failed unwatch is reported as a removal error, a failed watch as an add error",
+                w2.loc(w2.line), detail=str(flags), fail="the add/remove flag passed to notify_multi_path_errors does not match the operation: %s" % flags)
+
+
+
 def run(ctx):
     ctx.level = "other"
     facts = ctx.facts
@@ -253,57 +308,9 @@ def run(ctx):
 
     _c13.lock_scope(ctx, "R15.8")
 
-    # ---- R15.2b: notify_multi_path_errors never returns an empty list and builds one error per path, of the right kind
+    # ---- R15.2b
     try:
-        nm = ctx.anchor_fn("R15.2", "watchexec::sources::fs::notify_multi_path_errors")
-        n_emp = n_non = 0
-        for q in pathx.Enum().paths(thir.root(nm)):
-            emp = None
-            for e in q.ev:
-                if e[0] == "branch":
-                    if implies(e[1], e[2], "Vec::is_empty(paths)", True):
-                        emp = True
-                    elif implies(e[1], e[2], "Vec::is_empty(paths)", False):
-                        emp = False
-            top_push = [pathx.desc(e[2]["a"][0]) for e in q.ev if e[0] == "call" and strip_generics(e[1]).endswith("Vec::push")]
-            loops = [e for e in q.ev if e[0] == "loop" and e[2] == "for paths"]
-            if emp is True:
-                n_emp += 1
-                ctx.require(top_push == ["paths"], "R15.2", "multi:fallback-path", "when notify names no path the watched path itself is used", nm.loc(nm.line),
-                            detail=str(top_push), fail="a watch()/unwatch() error that names no path produces no RuntimeError at all: the failure is silently dropped")
-            elif emp is False:
-                n_non += 1
-                ctx.require(top_push == [], "R15.2", "multi:named-paths", "when notify names paths only those are reported", nm.loc(nm.line), detail=str(top_push))
-            else:
-                ctx.violation("R15.2", "multi:paths-tested", "notify_multi_path_errors does not test whether notify named any path", nm.loc(nm.line))
-            okl = len(loops) == 1
-            if okl:
-                for it in loops[0][1]:
-                    pushes = [pathx.desc(e[2]["a"][0]) for e in it if e[0] == "call" and strip_generics(e[1]).endswith("Vec::push")]
-                    okl = okl and pushes == ["errs"] and ("loop-break",) not in it
-            ctx.require(okl and q.val == "errs", "R15.2", "multi:one-error-per-path", "one RuntimeError is pushed per path and the list is returned", nm.loc(nm.line),
-                        fail="notify_multi_path_errors no longer produces exactly one error per failing path")
-        ctx.require(n_emp >= 1 and n_non >= 1, "R15.2", "multi:both-classes", "both cases (notify names paths / names none) are handled", nm.loc(nm.line))
-        # kind of the error follows the `rm` flag, and the two call sites pass the matching literal
-        ifs = [n for n in thir.find(thir.root(nm), "if") if pathx.if_parts(n)[0] == "rm"]
-        ok = False
-        if len(ifs) == 1:
-            _, t_, e_ = pathx.if_parts(ifs[0])
-            tv, evv = thir.expr_value(t_), thir.expr_value(e_)
-            ok = tv[0] == "v" and tv[2] == "PathRemove" and evv[0] == "v" and evv[2] == "PathAdd"
-        ctx.require(ok, "R15.2", "multi:kind", "rm selects FsWatcherError::PathRemove, otherwise PathAdd", nm.loc(nm.line))
-        w2 = ctx.anchor_one("R15.2", "fs worker coroutine", [c for c in facts.children(ctx.anchor_fn("R15.2", "watchexec::sources::fs::worker")) if c.kind == "coroutine"])
-        flags = {}
-        for m in thir.find(thir.root(w2), "match"):
-            if m.get("src") == "ForLoopDesugar":
-                inner = thir.peel(m["e"])
-                if inner.get("k") == "call" and inner.get("a") and pathx.desc(inner["a"][0]) in ("to_drop", "to_watch"):
-                    which = pathx.desc(inner["a"][0])
-                    for c, nd in thir.calls_in(m):
-                        if strip_generics(c).endswith("fs::notify_multi_path_errors"):
-                            flags.setdefault(which, []).append(pathx.desc(nd["a"][3]))
-        ctx.require(flags == {"to_drop": ["True"], "to_watch": ["False"]}, "R15.2", "multi:call-sites", "a failed unwatch is reported as a removal error, a failed watch as an add error",
-                    w2.loc(w2.line), detail=str(flags), fail="the add/remove flag passed to notify_multi_path_errors does not match the operation: %s" % flags)
+        multi_path_errors(ctx, "R15.2")
     except Skip:
         pass
 
